@@ -37,12 +37,17 @@ class Engine:
         self._cid = {n: i + 1 for i, n in enumerate(names)}
         self._cname = {i: n for n, i in self._cid.items()}
         self.node_classes = set(self.repo.subclasses('ConfigNode')) - {'ConfigNode', 'ComposedNode', 'ConfigScalar', 'ConfigScalarMarker', 'ConfigTuple'}
+        self.all_object_classes = (set(self.repo.classes) - {'ConfigNode', 'ComposedNode', 'ConfigScalar', 'ConfigScalarMarker', 'ConfigTuple', 'ConfigNodeMeta',
+                                                              'ConfigScalarMeta', 'NamespaceableMeta', 'Namespace', 'BoundNamespace', 'staticproperty',
+                                                              'namespaceable_property', 'Namespaceable', 'configbool', 'ConfigNone', 'persistent_id', 'LazyModule',
+                                                              'UnquotedNode'} - set(EXC_BASES)) | {'list', 'dict'}
         # concrete (instantiable) node classes; ConfigNode itself is abstract (type deduction), as are the markers
         self.instance_fields = self._scan_instance_fields()
         self.maybe_missing_fields = {'_func', '_delete', '_children'}
         self.external_effects = {}
         self.witness_fields = {}
-        self.field_types = {'_children': 'dict', '_metadata': 'dict'}
+        self.field_types = {'_children': 'dict', '_metadata': 'dict', '_eval_stack': 'list', '_eval_cache': 'dict', '_eval_cache_id': 'dict', 'stages': 'list',
+                            '_eval_symbols': 'dict', '_removed_nodes': 'dict'}
         self.field_hints = {'_func': ['function']}
 
     # ------------------------------------------------------------------ classes
@@ -337,7 +342,14 @@ class Engine:
         r = run.alloc('dict')
         it.heap.put_m(r, new)
         return SV(sym.mk_ref(r), hint=frozenset(['dict']))
-    def str_of_obj(self, it, v, n, fr): return SV(Val.str(it.run.fresh('strobj', z3.StringSort())))
+    def str_of_obj(self, it, v, n, fr):
+        """str(node): for string scalars (and their subclasses: !xref, !eval, ...) the text they hold (`$sval`)"""
+        cl = it.classes_of(v)
+        if cl and all(c in self.repo.classes and self.repo.is_subclass(c, 'str') for c in cl):
+            t = it.heap.get('$sval', sym.r_of(v.t))
+            it.run.assume(sym.is_str(t))
+            return SV(t)
+        return SV(Val.str(it.run.fresh('strobj', z3.StringSort())))
     def yield_hook(self, it, fr, v, node): pass
 
     def path_str(self, s):
@@ -345,12 +357,14 @@ class Engine:
         return f(s)
 
     def call_symbolic(self, it, fv, args, kwargs, n, fr):
-        it.unsupported(n, 'call of a symbolic value')
+        """call of a value that is not a package function (the target of a !call/!bind, a user callable): an EFFECT"""
+        it.run.event('call-target', lineno=getattr(n, 'lineno', None), args=[fv] + list(args), heap=it.heap.snapshot(), index=len(it.run.events))
+        return SV(it.run.fresh('callres'))
 
     def call_builtin_ext(self, it, name, a, kw, n, fr, as_cm=False):
         eff = self.registry.effects.get(name)
         if eff is not None:
-            it.run.event(eff, lineno=getattr(n, 'lineno', None), args=a)
+            it.run.event(eff, lineno=getattr(n, 'lineno', None), args=a, heap=it.heap.snapshot(), index=len(it.run.events))
             return self.effect_result(it, name, a, kw, n)
         op = self.registry.opaque.get(name)
         if op is not None:
